@@ -111,10 +111,9 @@ fn zero_rich() -> impl Strategy<Value = Expr> {
 pub fn run(ctx: &Ctx) {
     ctx.set_rule("expression trees over decimal literals with + - * / ^ and parentheses, canonical layout, compared with an independent exact evaluator; non-trivial = >=2 distinct operator kinds, or a parenthesised right operand, or a zero/negative power, or a literal longer than 20 characters, or a division-by-zero case; distinct by query text");
     ctx.assume("exponents are integer literals or parenthesised integer-valued expressions by construction; product of |exponents| along a path is capped (size guard)");
-    let db = shared_db();
     let corpus: Vec<(String, QCase)> = load_corpus("C01");
     let cases: Vec<QCase> = corpus.into_iter().map(|c| c.1).collect();
-    ctx.run_list("corpus", &cases, |c| judge(db, c), |c| to_json(c));
+    ctx.run_list("corpus", &cases, |c| judge(shared_db(), c), |c| to_json(c));
 
     let n = ctx.tier.pick(400_000u64, 8_000_000);
     let small = TreeCfg { depth: ctx.tier.pick(6, 8), size: 40, max_pow: 6, pow_weight_cap: 256, lit: LitCfg::SMALL, calls: false };
